@@ -344,6 +344,9 @@ func tdQuoteBodyToProto(b []uint8) (*pb.TDQuoteBody, error) {
 func signedDataToProto(b []uint8) (*pb.Ecdsa256BitQuoteV4AuthData, error) {
 	data := clone(b) // Created an independent copy to make the interface less error-prone
 	signedData := &pb.Ecdsa256BitQuoteV4AuthData{}
+	if len(data) < signedDataCertificationDataStart {
+		return nil, fmt.Errorf("signed data size is 0x%x. Expected minimum size of 0x%x", len(data), signedDataCertificationDataStart)
+	}
 	signedData.Signature = data[signedDataSignatureStart:signedDataSignatureEnd]
 	signedData.EcdsaAttestationKey = data[signedDataAttestationKeyStart:signedDataAttestationKeyEnd]
 
@@ -363,6 +366,9 @@ func signedDataToProto(b []uint8) (*pb.Ecdsa256BitQuoteV4AuthData, error) {
 func certificationDataToProto(b []uint8) (*pb.CertificationData, error) {
 	data := clone(b) // Created an independent copy to make the interface less error-prone
 	certification := &pb.CertificationData{}
+	if len(data) < certificateDataStart {
+		return nil, fmt.Errorf("certification data size is 0x%x. Expected minimum size of 0x%x", len(data), certificateDataStart)
+	}
 
 	certification.CertificateDataType = uint32(binary.LittleEndian.Uint16(data[certificateDataTypeStart:certificateDataTypeEnd]))
 	certification.Size = binary.LittleEndian.Uint32(data[certificateSizeStart:certificateSizeEnd])
@@ -387,6 +393,9 @@ func certificationDataToProto(b []uint8) (*pb.CertificationData, error) {
 func qeReportCertificationDataToProto(b []uint8) (*pb.QEReportCertificationData, error) {
 	data := clone(b) // Created an independent copy to make the interface less error-prone
 	qeReportCertificationData := &pb.QEReportCertificationData{}
+	if len(data) < qeReportCertificationDataAuthDataStart {
+		return nil, fmt.Errorf("QE report certification data size is 0x%x. Expected minimum size of 0x%x", len(data), qeReportCertificationDataAuthDataStart)
+	}
 
 	enclaveReport, err := enclaveReportToProto(data[enclaveReportStart:enclaveReportEnd])
 	if err != nil {
@@ -444,9 +453,15 @@ func enclaveReportToProto(b []uint8) (*pb.EnclaveReport, error) {
 func qeAuthDataToProto(b []uint8) (*pb.QeAuthData, uint32, error) {
 	data := clone(b) // Created an independent copy to make the interface less error-prone
 	authData := &pb.QeAuthData{}
+	if len(data) < authDataStart {
+		return nil, 0, fmt.Errorf("QE AuthData size is 0x%x. Expected minimum size of 0x%x", len(data), authDataStart)
+	}
 
 	authData.ParsedDataSize = uint32(binary.LittleEndian.Uint16(data[authDataParsedDataSizeStart:authDataParsedDataSizeEnd]))
 	authDataEnd := authDataParsedDataSizeEnd + authData.GetParsedDataSize()
+	if uint32(len(data)) < authDataEnd {
+		return nil, 0, fmt.Errorf("QE AuthData size is 0x%x. Expected minimum size of 0x%x", len(data), authDataEnd)
+	}
 	authData.Data = data[authDataStart:authDataEnd]
 	if err := checkQeAuthData(authData); err != nil {
 		return nil, 0, fmt.Errorf("parsing QE AuthData failed: %v", err)
@@ -457,6 +472,9 @@ func qeAuthDataToProto(b []uint8) (*pb.QeAuthData, uint32, error) {
 func pckCertificateChainToProto(b []uint8) (*pb.PCKCertificateChainData, error) {
 	data := clone(b) // Created an independent copy to make the interface less error-prone
 	pckCertificateChain := &pb.PCKCertificateChainData{}
+	if len(data) < pckCertChainDataStart {
+		return nil, fmt.Errorf("PCK certificate chain data size is 0x%x. Expected minimum size of 0x%x", len(data), pckCertChainDataStart)
+	}
 
 	pckCertificateChain.CertificateDataType = uint32(binary.LittleEndian.Uint16(data[pckCertChainCertificationDataTypeStart:pckCertChainCertificationDataTypeEnd]))
 	pckCertificateChain.Size = binary.LittleEndian.Uint32(data[pckCertChainSizeStart:pckCertChainSizeEnd])
